@@ -429,7 +429,18 @@ def run(p: Program, rep: Report, tier: str) -> None:
     if len(pings) == 2 and pings["wsgi"] != pings["asgi"]:
         rep.violation("R19.3", construct("baize.*.responses:SendEventResponse.render_stream", text=f"ping {pings}"), "baize/wsgi/responses.py vs baize/asgi/responses.py", "the keep-alive ping differs between the interfaces")
     rep.require_instances("R19.3", 2)
-    rep.require_instances("R19.4", 10)
+    # {**required_headers, **headers} reaches the client through the header mapping's constructor: a user header spelled in another
+    # case than the required one must be folded with it, not replace it (shared rule, sa/props/hdr_common.py)
+    from .hdr_common import headers_ctor_folds
+    for kind, fn_, node, cons, msg in headers_ctor_folds(p):
+        if kind == "ok":
+            rep.analysed(fn_.fq)
+            rep.ok("R19.4", msg)
+        elif kind == "undecided":
+            rep.undecide("R19.4", msg)
+        else:
+            rep.violation("R19.4", construct(fn_, text=cons), where(fn_, node), msg + " (the event stream becomes cacheable / is decoded with the wrong charset)", positive=True)
+    rep.require_instances("R19.4", 11)
 
     # ---------------------------------------------------------------- R19.5 nothing yielded is dropped on the way to the client
     from .stream_common import closed_flag_provenance, relay_put_never_drops
